@@ -207,3 +207,191 @@ Theorem C16_ctext_uc_off : forall m b cs k d fuel,
   callf cprog fuel (S (S (S d))) F_uc_off [VPtr b 0; VInt (Z.of_nat (off_of cs k))] m = Ok (VInt (Z.of_nat k), m).
 Proof. exact ctext_uc_off. Qed.
 Print Assumptions C16_ctext_uc_off.
+
+(* ---------------------------------------------------------------------------------------------
+   THE ALLOCATING / STRING-LEVEL HELPERS OF uc.c ARE THE C TEXT (coq/TrUcMem.v, TrUcComb.v, TrUcMemSpec.v, TrUcMemCap.v;
+   tools/c2clite.d/99zzzzz_ucmem.list): uc_sub, uc_cat, uc_dup, uc_trim, uc_lastline, uc_iscomb.  vi's operators cut
+   lines with uc_sub and join the pieces with uc_cat: this is the "edits keep text valid UTF-8" half of C16.
+   malloc appends a fresh block (VPtr (length m) 0, memory m ++ [block]): "m ++ [...]" says at once that the result is
+   fresh, holds exactly the stated bytes with their terminator, and that every other block is unchanged. *)
+From Coq Require Import Lia.
+From NV Require Import TrUcMem TrUcMemSpec.
+From NV Require RenDefs TrUcComb CapDefs CapDefs3 TrUcMemCap.
+
+(* uc_sub(s, beg, end) for EVERY C string and all int beg / end that uc_chr resolves (UcDefs.uc_sub = Some _): a fresh block
+   with exactly the bytes between the two character starts -- nothing when beg lies behind end *)
+Theorem C16_tr_uc_sub : forall m b s o beg en t d fuel,
+  str_at m b s -> nonul s -> (o <= length s)%nat -> (length s < fuel)%nat -> Z.of_nat (length s) < 2147483647 ->
+  UcDefs.uc_sub (skipn o s) beg en = Some t ->
+  callf cprog fuel (S (S (S (S d)))) F_uc_sub [VPtr b (Z.of_nat o); VInt beg; VInt en] m
+  = Ok (VPtr (length m) 0, m ++ [cstr_block (zb t)]).
+Proof. exact tr_uc_sub. Qed.
+Print Assumptions C16_tr_uc_sub.
+(* which offsets resolve: the negative ones (the terminator: callers write -1 for "to the end") and 0 .. uc_slen(s) *)
+Theorem C16_uc_chr_neg : forall s off, nonul s -> off < 0 -> uc_chr s off = Some (length s).
+Proof. exact uc_chr_neg. Qed.
+Print Assumptions C16_uc_chr_neg.
+Theorem C16_uc_chr_none : forall s off, nonul s -> (uc_chr s off = None <-> Z.of_nat (uc_slen s) < off).
+Proof. exact uc_chr_none. Qed.
+Print Assumptions C16_uc_chr_none.
+(* both offsets beyond the last character: uc_chr returns the static "" twice; a fresh empty string *)
+Theorem C16_tr_uc_sub_out : forall m b s o beg en d fuel,
+  str_at m b s -> nonul s -> (o <= length s)%nat -> (length s < fuel)%nat -> Z.of_nat (length s) < 2147483647 ->
+  (G_lit__0 < length m)%nat ->
+  uc_chr (skipn o s) beg = None -> uc_chr (skipn o s) en = None ->
+  callf cprog fuel (S (S (S (S d)))) F_uc_sub [VPtr b (Z.of_nat o); VInt beg; VInt en] m
+  = Ok (VPtr (length m) 0, m ++ [cstr_block (zb [])]).
+Proof. exact tr_uc_sub_out. Qed.
+Print Assumptions C16_tr_uc_sub_out.
+(* exactly one offset beyond the last character: NO clamping -- `sbeg <= send` compares a pointer into the line with the
+   static "" (C11 6.5.8p5: undefined); the checked semantics stops with EType *)
+Theorem C16_tr_uc_sub_undef : forall m b s o beg en d fuel,
+  str_at m b s -> nonul s -> (o <= length s)%nat -> (length s < fuel)%nat -> Z.of_nat (length s) < 2147483647 ->
+  b <> G_lit__0 ->
+  (uc_chr (skipn o s) beg = None <-> uc_chr (skipn o s) en <> None) ->
+  callf cprog fuel (S (S (S (S d)))) F_uc_sub [VPtr b (Z.of_nat o); VInt beg; VInt en] m = Err EType.
+Proof. exact tr_uc_sub_undef. Qed.
+Print Assumptions C16_tr_uc_sub_undef.
+
+(* uc_cat(s, r): a fresh block holding the concatenation (the two strings may share a block) *)
+Theorem C16_tr_uc_cat : forall m b1 s1 o1 b2 s2 o2 d fuel,
+  str_at m b1 s1 -> nonul s1 -> (o1 <= length s1)%nat -> str_at m b2 s2 -> nonul s2 -> (o2 <= length s2)%nat ->
+  Z.of_nat (length s1 - o1) + Z.of_nat (length s2 - o2) + 1 <= 2147483647 ->
+  callf cprog fuel (S d) F_uc_cat [VPtr b1 (Z.of_nat o1); VPtr b2 (Z.of_nat o2)] m
+  = Ok (VPtr (length m) 0, m ++ [cstr_block (zb (skipn o1 s1 ++ skipn o2 s2))]).
+Proof. exact tr_uc_cat. Qed.
+Print Assumptions C16_tr_uc_cat.
+(* uc_dup(s): an equal copy in a fresh block *)
+Theorem C16_tr_uc_dup : forall (m : CLite.mem) b s o d fuel,
+  str_at m b s -> nonul s -> (o <= length s)%nat -> Z.of_nat (length s) <= 2147483647 ->
+  callf cprog fuel (S d) F_uc_dup [VPtr b (Z.of_nat o)] m = Ok (VPtr (length m) 0, m ++ [cstr_block (zb (skipn o s))]).
+Proof. exact tr_uc_dup. Qed.
+Print Assumptions C16_tr_uc_dup.
+
+(* uc_trim(s) (fix a04410e) on a string at the start of an array of any size (vi_msg[512], cmp[64]): one store, s[i] = 0 with
+   i = TrUcMem.trim_idx s; the array then holds the C string uc_trim s = firstn i s, the cells behind its terminator keep
+   their old contents, no other block changes *)
+Theorem C16_tr_uc_trim : forall (m : CLite.mem) b s rest d fuel,
+  nth_error m b = Some (cstr_block (zb s) ++ rest) -> nonul s -> (length s < fuel)%nat ->
+  Z.of_nat (length s) + 4 <= 2147483647 ->
+  callf cprog fuel (S (S d)) F_uc_trim [VPtr b 0] m
+  = Ok (VUndef, upd m b (cstr_block (zb (uc_trim s)) ++ skipn (S (trim_idx s)) (cstr_block (zb s) ++ rest))).
+Proof. exact tr_uc_trim. Qed.
+Print Assumptions C16_tr_uc_trim.
+(* which prefix remains: whole characters only (every lead byte followed by all the bytes it announces); either nothing is
+   cut or what follows the cut is ONE character announcing more bytes than are left -- fewer than 4 bytes go *)
+Theorem C16_uc_trim_spec : forall s, nonul s ->
+  let i := trim_idx s in
+  uc_trim s = firstn i s /\ (i <= length s)%nat /\ whole (uc_trim s) /\
+  (i = length s \/ (length s < i + uc_len (skipn i s))%nat) /\ (length s - i < 4)%nat.
+Proof. exact uc_trim_spec. Qed.
+Print Assumptions C16_uc_trim_spec.
+Theorem C16_uc_trim_whole : forall s, whole s -> trim_idx s = length s /\ uc_trim s = s.
+Proof. exact uc_trim_whole. Qed.
+Print Assumptions C16_uc_trim_whole.
+(* ... and then the call changes nothing at all *)
+Theorem C16_tr_uc_trim_whole : forall (m : CLite.mem) b s rest d fuel,
+  nth_error m b = Some (cstr_block (zb s) ++ rest) -> nonul s -> whole s -> (length s < fuel)%nat ->
+  Z.of_nat (length s) + 4 <= 2147483647 ->
+  callf cprog fuel (S (S d)) F_uc_trim [VPtr b 0] m = Ok (VUndef, m).
+Proof. exact tr_uc_trim_whole. Qed.
+Print Assumptions C16_tr_uc_trim_whole.
+(* the model of uc_trim that C05 reasons about (C05_uc_trim_spec, C05_cut_store_spec) is this one *)
+Theorem C16_cap_uc_trim_eq : forall s, nonul s -> CapDefs3.uc_trim s = CapDefs.Ok (uc_trim s).
+Proof. exact TrUcMemCap.cap_uc_trim_eq. Qed.
+Print Assumptions C16_cap_uc_trim_eq.
+
+(* uc_lastline(s): the pointer behind the last '\n', or s *)
+Theorem C16_tr_uc_lastline : forall m b s o d fuel, str_at m b s -> nonul s -> (o <= length s)%nat ->
+  callf cprog fuel (S d) F_uc_lastline [VPtr b (Z.of_nat o)] m = Ok (VPtr b (Z.of_nat (o + uc_lastline (skipn o s))), m).
+Proof. exact tr_uc_lastline. Qed.
+Print Assumptions C16_tr_uc_lastline.
+Theorem C16_uc_lastline_spec : forall s, let r := uc_lastline s in
+  (r <= length s)%nat /\ ~ In 10%N (skipn r s) /\ (r = 0%nat \/ nthb s (r - 1) = 10%N).
+Proof. exact uc_lastline_spec. Qed.
+Print Assumptions C16_uc_lastline_spec.
+
+(* uc_iscomb(s) = the model's combining test (RenDefs.uc_iscomb, the one C17's cursor / width theorems use) *)
+Theorem C16_tr_uc_iscomb : forall m b s o d fuel,
+  str_at m b s -> bytes_lt256 s -> (o + uc_len_b (nthb s o) - 1 <= length s)%nat -> (o <= length s)%nat ->
+  callf cprog fuel (S (S d)) F_uc_iscomb [VPtr b (Z.of_nat o)] m = Ok (VInt (b2z (RenDefs.uc_iscomb (skipn o s))), m).
+Proof. exact TrUcComb.tr_uc_iscomb. Qed.
+Print Assumptions C16_tr_uc_iscomb.
+
+(* ---- composed with the code-point theorems: VALID text stays VALID.  eff n z = the character index an int offset stands
+   for in a line of n characters (negative = n).  For the encoding of ANY list of scalars cs and offsets inside the line: the
+   fresh block holds the encoding of the characters kb .. ke-1 (none when kb > ke), that is valid UTF-8, ke - kb characters *)
+Theorem C16_ctext_uc_sub : forall m b cs beg en d fuel,
+  Forall scalar cs -> str_at m b (chars cs) -> (length (chars cs) < fuel)%nat -> Z.of_nat (length (chars cs)) < 2147483647 ->
+  let kb := eff (length cs) beg in let ke := eff (length cs) en in
+  (kb <= length cs)%nat -> (ke <= length cs)%nat ->
+  let r := firstn (ke - kb) (skipn kb cs) in
+  callf cprog fuel (S (S (S (S d)))) F_uc_sub [VPtr b 0; VInt beg; VInt en] m
+  = Ok (VPtr (length m) 0, m ++ [cstr_block (zb (chars r))])
+  /\ Forall scalar r /\ valid (chars r) /\ uc_slen (chars r) = (ke - kb)%nat.
+Proof. exact ctext_uc_sub. Qed.
+Print Assumptions C16_ctext_uc_sub.
+Theorem C16_ctext_uc_sub_beyond : forall m b cs beg en d fuel,
+  Forall scalar cs -> str_at m b (chars cs) -> (length (chars cs) < fuel)%nat -> Z.of_nat (length (chars cs)) < 2147483647 ->
+  b <> G_lit__0 ->
+  (Z.of_nat (length cs) < beg <-> en <= Z.of_nat (length cs)) ->
+  callf cprog fuel (S (S (S (S d)))) F_uc_sub [VPtr b 0; VInt beg; VInt en] m = Err EType.
+Proof. exact ctext_uc_sub_beyond. Qed.
+Print Assumptions C16_ctext_uc_sub_beyond.
+Theorem C16_ctext_uc_cat : forall m b1 cs1 b2 cs2 d fuel,
+  Forall scalar cs1 -> Forall scalar cs2 -> str_at m b1 (chars cs1) -> str_at m b2 (chars cs2) ->
+  Z.of_nat (length (chars cs1)) + Z.of_nat (length (chars cs2)) + 1 <= 2147483647 ->
+  callf cprog fuel (S d) F_uc_cat [VPtr b1 0; VPtr b2 0] m
+  = Ok (VPtr (length m) 0, m ++ [cstr_block (zb (chars (cs1 ++ cs2)))])
+  /\ valid (chars (cs1 ++ cs2)) /\ uc_slen (chars (cs1 ++ cs2)) = (length cs1 + length cs2)%nat.
+Proof. exact ctext_uc_cat. Qed.
+Print Assumptions C16_ctext_uc_cat.
+(* uc_trim leaves valid text alone ... *)
+Theorem C16_ctext_uc_trim_valid : forall (m : CLite.mem) b cs rest d fuel,
+  Forall scalar cs -> nth_error m b = Some (cstr_block (zb (chars cs)) ++ rest) -> (length (chars cs) < fuel)%nat ->
+  Z.of_nat (length (chars cs)) + 4 <= 2147483647 ->
+  callf cprog fuel (S (S d)) F_uc_trim [VPtr b 0] m = Ok (VUndef, m).
+Proof. exact ctext_uc_trim_valid. Qed.
+Print Assumptions C16_ctext_uc_trim_valid.
+(* ... and repairs what snprintf(buf, k + 1, "%s", line) left of a valid line (its first k bytes, possibly ending inside a
+   character): the array then holds the encoding of the first j characters, j the largest count that fits into k bytes *)
+Theorem C16_ctext_uc_trim_cut : forall (m : CLite.mem) b cs k rest d fuel,
+  Forall scalar cs -> nth_error m b = Some (cstr_block (zb (firstn k (chars cs))) ++ rest) -> (k < fuel)%nat ->
+  Z.of_nat k + 4 <= 2147483647 ->
+  exists j rest', (j <= length cs)%nat /\ (off_of cs j <= k)%nat /\ (j = length cs \/ (k < off_of cs (S j))%nat) /\
+    callf cprog fuel (S (S d)) F_uc_trim [VPtr b 0] m
+    = Ok (VUndef, upd m b (cstr_block (zb (chars (firstn j cs))) ++ rest'))
+    /\ length (cstr_block (zb (chars (firstn j cs))) ++ rest') = length (cstr_block (zb (firstn k (chars cs))) ++ rest)
+    /\ valid (chars (firstn j cs)).
+Proof. exact ctext_uc_trim_cut. Qed.
+Print Assumptions C16_ctext_uc_trim_cut.
+
+(* non-vacuity, and the interpreter itself run on the translated text: the line "aé€\nx" (block 1; block 0 is the static ""),
+   uc_sub cutting at multi-byte characters / with -1 / with beg > end / both offsets beyond / one offset beyond, uc_cat,
+   uc_dup, uc_lastline, uc_iscomb on U+064B (an Arabic diacritic), and uc_trim on "a" + the first two bytes of € in an 8-byte array *)
+Example C16_tr_mem_nonvacuous :
+  let s := [97; 195; 169; 226; 130; 172; 10; 120]%N in
+  let m := [cstr_block (zb []); cstr_block (zb s)] in
+  let cut := [cstr_block (zb [97; 226; 130]%N) ++ [VInt 7; VUndef; VUndef; VUndef]] in
+  str_at m 1 s /\ nonul s /\ UcDefs.uc_sub s 1 3 = Some [195; 169; 226; 130; 172]%N /\
+  callf cprog 100 6 F_uc_sub [VPtr 1 0; VInt 1; VInt 3] m = Ok (VPtr 2 0, m ++ [cstr_block (zb [195; 169; 226; 130; 172]%N)]) /\
+  callf cprog 100 6 F_uc_sub [VPtr 1 0; VInt 2; VInt (-1)] m = Ok (VPtr 2 0, m ++ [cstr_block (zb [226; 130; 172; 10; 120]%N)]) /\
+  callf cprog 100 6 F_uc_sub [VPtr 1 0; VInt 3; VInt 1] m = Ok (VPtr 2 0, m ++ [cstr_block (zb [])]) /\
+  callf cprog 100 6 F_uc_sub [VPtr 1 0; VInt 6; VInt 9] m = Ok (VPtr 2 0, m ++ [cstr_block (zb [])]) /\
+  callf cprog 100 6 F_uc_sub [VPtr 1 0; VInt 0; VInt 6] m = Err EType /\
+  callf cprog 100 6 F_uc_cat [VPtr 1 6; VPtr 1 1] m = Ok (VPtr 2 0, m ++ [cstr_block (zb [10; 120; 195; 169; 226; 130; 172; 10; 120]%N)]) /\
+  callf cprog 100 6 F_uc_dup [VPtr 1 3] m = Ok (VPtr 2 0, m ++ [cstr_block (zb [226; 130; 172; 10; 120]%N)]) /\
+  callf cprog 100 6 F_uc_lastline [VPtr 1 0] m = Ok (VPtr 1 7, m) /\ uc_lastline s = 7%nat /\
+  callf cprog 100 6 F_uc_iscomb [VPtr 0 0] [cstr_block (zb [217; 139]%N)] = Ok (VInt 1, [cstr_block (zb [217; 139]%N)]) /\
+  RenDefs.uc_iscomb [217; 139]%N = true /\
+  callf cprog 100 6 F_uc_trim [VPtr 0 0] cut = Ok (VUndef, [cstr_block (zb [97]%N) ++ [VInt 130; VInt 0; VInt 7; VUndef; VUndef; VUndef]]) /\
+  uc_trim [97; 226; 130]%N = [97]%N /\ whole [97; 226; 130; 172]%N /\ ~ whole [97; 226; 130]%N.
+Proof.
+  cbv zeta. split; [reflexivity|]. split; [repeat constructor; cbv; intuition discriminate|].
+  split; [vm_compute; reflexivity|].
+  repeat (split; [vm_compute; reflexivity|]).
+  split.
+  - apply whole_cons; [discriminate|vm_compute; lia|]. apply whole_cons; [discriminate|vm_compute; lia|]. constructor.
+  - intro W. inversion W as [|t Hne Hl W' Et]. subst t. vm_compute in W'.
+    inversion W' as [|t' Hne' Hl' W'' Et']. subst t'. vm_compute in Hl'. lia.
+Qed.
